@@ -3,8 +3,11 @@
 domain : sequences of datagrams (command, position/node or logical address,
          data length 0..max biased to the fits / does-not-fit boundary, index,
          working-counter preset) appended to a Packet / SterilePacket until
-         one is rejected; then assemble(index, ethertype) and sterile().
-oracle : independent parser (vf.sim.frames) + the statement's field rules.
+         one is rejected; then assemble(index, ethertype) and sterile(),
+         also at up to three points while the packet is still growing, and
+         with another packet of the same kind assembled afterwards.
+oracle : independent parser (vf.sim.frames) + the statement's field rules for
+         every assembled frame; a frame handed out earlier keeps its bytes.
 """
 import struct
 
@@ -73,6 +76,8 @@ def strategy(tier):
         | st.integers(-2**31, 2**31 - 1),
         "ethertype": st.sampled_from([0x88A4, 0, 0xffff, 0x3000])
         | st.integers(0, 0xffff),
+        "mid": st.lists(st.integers(1, 15), max_size=3),
+        "other": st.integers(0, 3),
     })
 
 
@@ -112,6 +117,8 @@ def run_case(case):
     keyparts = [sterile]
     boundary = False
     limit = count_limit()
+    mid = set(case.get("mid") or [])
+    held = []           # (frame object, its bytes when returned, what)
     for spec in case["dgrams"]:
         ln = spec["len"]
         capacity = MAXSIZE - size - 12
@@ -162,10 +169,52 @@ def run_case(case):
         keyparts.append((spec["cmd"], len(addr), lenclass,
                          spec["writer"] and sterile))
         size += 12 + ln
+        if len(accepted) in mid:
+            # the frame is also assembled while the packet is still growing
+            res = judge(case, pkt, sterile, list(accepted), size, classes,
+                        held)
+            if res is not None:
+                res["what"] = (f"assembled after {len(accepted)} datagrams: "
+                               + res["what"])
+                return res
+            classes.append("mid-assemble")
+            keyparts.append("mid")
 
     if not accepted:
         return dict(ok=True, nontrivial=False, classes=classes + ["empty"])
 
+    res = judge(case, pkt, sterile, accepted, size, classes, held)
+    if res is not None:
+        return res
+    if case.get("other"):
+        # another packet of the same kind is used in between: frames handed
+        # out earlier are the caller's and keep their contents
+        other = SterilePacket() if sterile else Packet()
+        for k in range(case["other"]):
+            other.append(ECCmd.FPRD, payload(3 + k, 17 * k), k, 7, 0x130)
+        other.assemble(5, 0x88a4)
+        if sterile:
+            other.sterile(5, 0x88a4)
+        classes.append("other-packet")
+    for frame, copy, what in held:
+        if bytes(frame) != copy:
+            return fail(case, f"the frame returned by {what} changed "
+                        f"afterwards (it was {len(copy)} bytes, now "
+                        f"{len(frame)}, first difference at "
+                        f"{next((i for i, (a, b) in enumerate(zip(frame, copy)) if a != b), min(len(frame), len(copy)))})",
+                        classes)
+    if len(held) > (2 if sterile else 1):
+        classes.append("held-frames")
+    classes.append(f"n={min(len(accepted), 15)}")
+    return dict(ok=True, nontrivial=len(accepted) >= 2 or boundary,
+                key=repr(keyparts), classes=classes,
+                summary={"frame_len": len(held[-1][1]),
+                         "datagrams": len(accepted),
+                         "assembled": len(held)})
+
+
+def judge(case, pkt, sterile, accepted, size, classes, held):
+    """assemble (and sterile) now and check against the accepted datagrams"""
     index = case["index"]
     ethertype = case["ethertype"]
     try:
@@ -176,6 +225,7 @@ def run_case(case):
     res = check_frame(case, frame, accepted, size, index, ethertype, classes)
     if res is not None:
         return res
+    held.append((frame, bytes(frame), f"assemble() #{len(held) + 1}"))
     if sterile:
         try:
             sframe = pkt.sterile(index, ethertype)
@@ -185,6 +235,7 @@ def run_case(case):
                         f"(a rejected append must leave no trace)", classes)
         if len(sframe) != len(frame):
             return fail(case, "sterile copy has another length", classes)
+        held.append((sframe, bytes(sframe), f"sterile() #{len(held) + 1}"))
         writers = {hdr for spec, _, _, _, hdr in accepted if spec["writer"]}
         for i, (a, b) in enumerate(zip(frame, sframe)):
             if i in writers:
@@ -207,12 +258,9 @@ def run_case(case):
         if [tuple(x) for x in pkt.on_the_fly] != exp_otf:
             return fail(case, f"on_the_fly {pkt.on_the_fly} != {exp_otf}",
                         classes)
-        if writers:
+        if writers and "has_writer" not in classes:
             classes.append("has_writer")
-    classes.append(f"n={min(len(accepted), 15)}")
-    return dict(ok=True, nontrivial=len(accepted) >= 2 or boundary,
-                key=repr(keyparts), classes=classes,
-                summary={"frame_len": len(frame), "datagrams": len(accepted)})
+    return None
 
 
 def check_frame(case, frame, accepted, size, index, ethertype, classes):
